@@ -595,11 +595,9 @@ def cleanup_branch_rule(A, rule, rollback):
     """every inconsistency class the pid look-up raises is caught in delete_object (and, with `rollback`, in the tagging
     roll-back): by a handler of a try that contains the look-up call, or - whatever the nesting of helpers - by a handler
     of that function which the interpreter has seen catching the class"""
-    fo = A.impl("_find_object")
-    raised = set()
-    for n in func_nodes(fo, ast.Raise):
-        if isinstance(n.exc, ast.Call) and isinstance(n.exc.func, ast.Name) and n.exc.func.id in A.p.exc_classes:
-            raised.add(n.exc.func.id)
+    # the store's own exception classes with which the look-up can end (read off its interpreted exits, so that a look-up
+    # split over helpers keeps its classes)
+    raised = {l for k, l, _st, _rv in A.run(Q("_find_object"), "th").exits if k == "raise" and l in A.p.exc_classes}
 
     def handled(fq, entry):
         out = set()
@@ -800,21 +798,12 @@ def check_C10(A: Analysis, tier):
     return rules
 
 
-_c05_cache = {}
-_c03_cache = {}
-
-
 def c03_cached(A):
-    if id(A) not in _c03_cache:
-        _c03_cache[id(A)] = check_C03(A, "quick")
-    return _c03_cache[id(A)]
-
+    return rules_of(A, "C03")
 
 
 def c05_cached(A):
-    if id(A) not in _c05_cache:
-        _c05_cache[id(A)] = check_C05(A, "quick")
-    return _c05_cache[id(A)]
+    return rules_of(A, "C05")
 
 
 # =======================================================================================
@@ -971,6 +960,11 @@ def check_C11(A: Analysis, tier):
                 if k == "return" and not any(tag(t) == "handle" for t in rv):
                     re_.fail(Q(e), "return", "retrieve_metadata can return something that is not an open stream")
     rules.append(re_)
+    rh11 = Rule("C11", "C11.h", "delete_metadata(pid) / delete_object(pid) remove ALL of the pid's documents: the loop over the listed documents has no "
+                "early normal exit (shared with C12.i)", floor=1)
+    from .rules_locks import listing_loop_rule
+    listing_loop_rule(A, rh11)
+    rules.append(rh11)
     return rules
 
 
@@ -1247,6 +1241,13 @@ def check_C15(A: Analysis, tier):
                 if not a0 or not all(t == C(0) or (tag(t) == "callres" and t[1] == "tell") for t in a0):
                     rc.fail(ev.func, ev.node, f"text-mode seek to a computed offset ({showv(a0)[:60]}): characters are counted, bytes are addressed - with a non-ASCII "
                             "pid earlier in the list the rewrite starts inside a line and the one-pid-per-line format is destroyed", A.p.loc(ev.func, ev.node))
+            if ev.kind == "WRITE" and ev.prim == "file.truncate" and "b" not in (ev.extra.get("mode") or "b"):
+                rc.ob()
+                rc.inst(f"{ev.func.qual}:{ev.line} truncate on a text-mode handle")
+                a0 = ev.paths[1] if len(ev.paths) > 1 else EMPTY
+                if a0 and not all(t == NONE or (tag(t) == "callres" and t[1] == "tell") for t in a0):
+                    rc.fail(ev.func, ev.node, f"text-mode truncate to a computed size ({showv(a0)[:60]}): characters are counted, bytes are cut - with a non-ASCII "
+                            "pid among the lines kept the file is cut short and the last pid kept loses the end of its line", A.p.loc(ev.func, ev.node))
     vr = A.p.func(Q("_verify_hashstore_references"))
     # the content error is raised exactly on inequality of the file's whole content with the cid argument
     it_v = A.run(Q("_verify_hashstore_references"), "th")
@@ -1335,6 +1336,13 @@ def check_C15(A: Analysis, tier):
                           "strings, which would be recorded as YAML strings that other HashStore implementations / versions refuse",
                           A.p.loc(c["func"], c["node"]), {"value": [showv(frozenset([t]))[:80] for t in bad]})
     rules.append(rh15)
+    _src = [r for r in rules_of(A, "C11") if r.rid == "C11.a"][0]
+    ri15 = Rule("C15", "C15.i", "a metadata document is addressed metadata/shard(H(pid))/H(pid + format_id) with the format id exactly as given "
+                "(shared with C11.a): no stripping, case folding or other normalisation of the identifier before it is hashed", floor=_src.floor)
+    ri15.instances, ri15.nontrivial, ri15.obligations = list(_src.instances), set(_src.nontrivial), _src.obligations
+    for f in _src.findings:
+        ri15.fail(f.func, f.construct, f.message, f.loc, f.detail)
+    rules.append(ri15)
     # the depth, width, algorithm and default namespace an instance works with are the *supplied* ones; they are the
     # store's own only because the constructor established equality with hashstore.yaml (C14.a)
     from .rules_data import check_C14
